@@ -1,6 +1,9 @@
 import TonicModel.Model.Reconnect
 import TonicModel.Spec.Reconnect
 import TonicModel.Lemmas.Reconnect
+import TonicModel.Lemmas.ReconnectErr
+import TonicModel.Lemmas.ReconnectStack
+import TonicModel.Lemmas.ReconnectNet
 /-
 C14 — A channel always answers and recovers when the peer comes back.
 Property theorems only; helper lemmas live in `Lemmas/Reconnect.lean`.
@@ -201,6 +204,90 @@ theorem C14_recovers_after_peer_drop (r : R) (c x p : Nat) (env : List Ans) (he 
   subst h1
   simp [call, h3, h2, target]
 
+/-! ## deadlines and calls that die in flight
+
+`stackCall` models the middleware `Connection::new` puts between the buffer worker and
+`Reconnect` (`AddOrigin`, `UserAgent`, `GrpcTimeout`, the optional limit layers): each of them
+calls its inner service unconditionally, and `GrpcTimeout`'s response future polls the inner
+future before its own timer.  `serveD` / `serveX` / `sessionX` are `serve` / `session` for calls
+that carry a zero effective deadline and/or are in flight when their connection dies. -/
+
+/-- Whatever the deadline of a call — zero included — `Reconnect::call` runs exactly as for an
+ordinary call: the middleware does not change what happens to the state machine, and a parked
+connect error is taken by that very call and not left behind for a later one. -/
+theorem C14_deadline_call_takes_parked_error (r : R) (zero : Bool) :
+    (stackCall r zero).1 = (call r).1 ∧
+    ∀ e, r.error = some e → (stackCall r zero).2 = .error e ∧ (stackCall r zero).1.error = none :=
+  ⟨stackCall_state r zero, fun e he => stackCall_parked r e zero he⟩
+
+/-- One request with any deadline through the worker is the ordinary `serve` seen through the
+deadline: same state afterwards, same part of the script consumed, and the only difference is
+that a request that went out with a zero deadline ends as `expired` instead of answered. -/
+theorem C14_deadline_serve_is_serve (r : R) (env : List Ans) (zero : Bool) :
+    serveD r env zero = ((serve r env).1, (serve r env).2.1, viewD zero (serve r env).2.2) :=
+  serveD_eq r env zero
+
+/-- `C14_definite_result` for calls of any kind (zero deadline or not, answered or dying in
+flight), from any state in use: never a panic; left waiting only if the environment went silent. -/
+theorem C14_definite_result_any_call (r : R) (env : List Ans) (cs : CallSpec) (hs : r.st ≠ .spent) :
+    (serveX r env cs).2.2 ≠ .plain .panic ∧
+    ((serveX r env cs).2.2 = .plain .hang → (serveX r env cs).2.1 = []) := by
+  obtain ⟨_, h2, h3⟩ := serveX_eq r env cs
+  obtain ⟨d1, d2⟩ := serve_definite r env hs
+  refine ⟨fun h => d1 ?_, fun h => ?_⟩
+  · rw [← h3, h]; rfl
+  · rw [h2]; apply d2; rw [← h3, h]; rfl
+
+/-- A session of calls of any kinds drives the state machine and consumes the script exactly like
+the plain session of the same length (`toRes` forgets what became of a request once it was out):
+what a call's deadline is, and whether its connection dies under it, has no influence on any
+other call. -/
+theorem C14_session_any_calls_is_session (r : R) (env : List Ans) (specs : List CallSpec) :
+    (sessionX r env specs).1.map XRes.toRes = (session r env specs.length).1 ∧
+    (sessionX r env specs).2 = (session r env specs.length).2 :=
+  sessionX_eq specs r env
+
+/-- `C14_session_definite` for such sessions. -/
+theorem C14_session_definite_any_calls (r : R) (env : List Ans) (specs : List CallSpec)
+    (he : r.error = none) (hs : r.st ≠ .spent) :
+    XRes.plain .panic ∉ (sessionX r env specs).1 ∧
+    (XRes.plain .hang ∈ (sessionX r env specs).1 → (sessionX r env specs).2.2 = []) := by
+  obtain ⟨h1, h2⟩ := sessionX_eq specs r env
+  obtain ⟨f1, f2, _⟩ := session_facts specs.length r env he hs
+  refine ⟨fun h => f1 ?_, fun h => ?_⟩
+  · rw [← h1]; exact List.mem_map.2 ⟨_, h, rfl⟩
+  · rw [h2]; apply f2; rw [← h1]; exact List.mem_map.2 ⟨_, h, rfl⟩
+
+/-- `C14_no_replay_session` for such sessions: the connect errors handed to calls still form a
+subsequence of the failures that happened, and every in-flight error is delivered to the call it
+struck and to no other (in order, a subsequence of the scripted fates) — neither kind of error is
+replayed onto a later call. -/
+theorem C14_no_replay_any_calls (l : Bool) (env : List Ans) (specs : List CallSpec) :
+    (reportedX (sessionX (R.init l) env specs).1).Sublist (failures env) ∧
+    (lostIds (sessionX (R.init l) env specs).1).Sublist (fateIds specs) := by
+  refine ⟨?_, sessionX_lost_sublist specs _ _⟩
+  unfold reportedX
+  rw [(sessionX_eq specs (R.init l) env).1]
+  exact session_reported_sublist _ env _ rfl
+
+/-- Two callers at the same moment on a channel with no connection (lazy and not yet connected,
+or the connection was lost) whose next attempt fails with `e`: `tower::buffer` queues the two
+requests and the worker handles each completely before the next, so the FIRST request gets `e` —
+the failure of the attempt its own `poll_ready` ran — and the SECOND triggers a fresh attempt of
+its own: it is served if that one succeeds, and gets that attempt's own failure `e2` (never `e`
+again) if not. -/
+theorem C14_concurrent_callers (r : R) (e e2 : Nat) (rest : List Ans) (he : r.error = none)
+    (hst : r.st = .idle) (hl : (r.hasBeen || r.isLazy) = true) :
+    (session r (.ok :: .err e :: .ok :: .ok :: .ok :: rest) 2).1 = [.err e, .resp (r.made + 2)] ∧
+    (session r (.ok :: .err e :: .ok :: .err e2 :: rest) 2).1 = [.err e, .err e2] := by
+  have h1 := serve_idle_fails r e (.ok :: .ok :: .ok :: rest) he hst hl
+  have h1' := serve_idle_fails r e (.ok :: .err e2 :: rest) he hst hl
+  have h2 := serve_idle_connects { r with st := .idle, made := r.made + 1 } rest he rfl
+  have h3 := serve_idle_fails { r with st := .idle, made := r.made + 1 } e2 rest he rfl hl
+  constructor
+  · simp only [session, h1, h2]
+  · simp only [session, h1', h3]
+
 /-! ## the oracle holds of the model at the two lower levels too -/
 
 /-- For every script, mode and number of calls, what the model does when driven like `Channel`
@@ -225,16 +312,77 @@ theorem C14_unit_spec (l : Bool) (env : List Ans) (ops : List UOp) :
 
 /-! ## the whole property on end-to-end fault scripts -/
 
-/-- Every way a connection attempt can fail is classified as a connect error, hence surfaces as
+/-! ### the class of a connection failure: `Status::from_error` over the source chain
+
+`ErrClass.fromError` models `Status::from_error(..).code()` on an error given as the list of nodes
+that walking `source()` visits (`ErrChain.Node`: what `downcast_ref` can tell apart). -/
+
+/-- `find_status_in_source_chain` looks through wrappers that mean nothing by themselves
+(`transport::Error`, `io::Error`, TLS errors, any user error type): any number of them in front of
+a chain does not change what is found. -/
+theorem C14_class_wrappers_transparent (pre rest : List ErrChain.Node)
+    (h : ∀ n ∈ pre, n.plain = true) :
+    ErrClass.findInChain (pre ++ rest) = ErrClass.findInChain rest :=
+  ErrClass.findInChain_plain_prefix pre rest h
+
+/-- A `ConnectError` anywhere under such wrappers is classified UNAVAILABLE **whatever its cause
+chain is** — any `io::ErrorKind`, a TLS error, a timeout, a boxed custom error, a nested `Status`
+(of any code), `TimeoutExpired`, another `ConnectError`, a `hyper`/`h2` error: `cause` is an
+arbitrary chain. -/
+theorem C14_connect_error_unavailable_whatever_cause (pre cause : List ErrChain.Node)
+    (h : ∀ n ∈ pre, n.plain = true) :
+    ErrClass.fromError (pre ++ .connectError :: cause) = unavailable :=
+  ErrClass.fromError_connect pre cause h
+
+/-- Every error a failed connection attempt can produce on the fixed tree — `transport::Error`
+around `MakeSendRequestService`'s `ConnectError` around (when the failure came from inside
+`Connector::call`) that one's `ConnectError` around ANY cause — is UNAVAILABLE. -/
+theorem C14_attempt_error_unavailable (inConnector : Bool) (cause : List ErrChain.Node) :
+    ErrClass.fromError (ErrClass.attemptChain true inConnector cause) = unavailable :=
+  ErrClass.fromError_attempt inConnector cause
+
+/-- The other arms, for completeness of the model's reading of `from_error`: a `Status` under
+plain wrappers keeps its code, `TimeoutExpired` is CANCELLED, nothing recognisable is UNKNOWN. -/
+theorem C14_class_other_arms (pre rest : List ErrChain.Node) (c : Nat)
+    (h : ∀ n ∈ pre, n.plain = true) :
+    ErrClass.fromError (pre ++ .status c :: rest) = c ∧
+    ErrClass.fromError (pre ++ .timeoutExpired :: rest) = 1 ∧
+    ErrClass.fromError pre = 2 :=
+  ⟨ErrClass.fromError_status pre rest c h, ErrClass.fromError_timeoutExpired pre rest h,
+    ErrClass.fromError_plain pre h⟩
+
+/-- For every chain, what the model answers satisfies the oracle's class clause (the predicate
+the check evaluates on the code the real `Status::from_error` returned): if the chain is that of
+a connection failure (`Spec.Reconnect.isConnectFailure`), the code is UNAVAILABLE. -/
+theorem C14_class_spec (chain : List ErrChain.Node) :
+    (Spec.Reconnect.classClauses chain (ErrClass.fromError chain)).all (·.2) = true :=
+  ErrClass.classClauses_hold chain
+
+/-- On the pinned tree (before `fix-C14-connect-error-class.patch`) the class of a failure raised
+outside `Connector::call` depended on its cause: a connect timeout or a handshake failure (plain
+causes) came out UNKNOWN. -/
+theorem C14_attempt_error_unfixed_fails :
+    ¬ (∀ (inConnector : Bool) (cause : List ErrChain.Node),
+        ErrClass.fromError (ErrClass.attemptChain false inConnector cause) = unavailable) := by
+  intro h
+  have := h false [.io .timedOut]
+  revert this
+  decide
+
+/-- Every way a connection attempt of the end-to-end scripts can fail (refused by the connector,
+HTTP/2 handshake on a dead transport, connect timeout) is, through the classification above,
 UNAVAILABLE (on the tree with `fix-C14-connect-error-class.patch`). -/
 theorem C14_connect_failures_are_unavailable (o : Outcome) :
     E2E.statusCode (E2E.classOf true o) = unavailable :=
-  E2E.statusCode_fixed o
+  ErrClass.fromError_attempt (o = .refuse) (E2E.causeOf o)
 
 /-- Headline: for EVERY fault script — any list of attempt outcomes, any list of calls and
 peer-drops of any length, lazy or eager — what the model lets a caller observe satisfies every
 clause of the oracle `Spec.Reconnect.clauses` (the same decidable predicate the check evaluates on
-the real implementation's output): each call gets a definite result; an error is UNAVAILABLE, is
+the real implementation's output): each call — ordinary, with a zero deadline (`callZero`), or in
+flight when the peer drops the connection (`callDie`), or one of two issued at the same moment
+(`pair`: explainable as two calls in queue order, so the two are never handed the failure of the
+same attempt) — gets a definite result; an error is UNAVAILABLE, is
 given only while no connection exists and the attempt this call triggered failed, and carries
 that attempt's failure (never an older one); a call succeeds whenever a connection is up or the
 endpoint is reachable again; an eager channel whose first attempt fails reports it from `connect`
@@ -242,6 +390,28 @@ after exactly one attempt. -/
 theorem C14_e2e_spec (isLazy : Bool) (outs : List Outcome) (ops : List Op) :
     Spec.Reconnect.holds isLazy outs ops (E2E.run true isLazy outs ops) = true :=
   E2E.run_holds isLazy outs ops
+
+/-- The standard entry points, `Endpoint::connect()` / `connect_lazy()`, against a real listening
+socket that a script opens and closes (`NOp.up` / `NOp.down`; loopback TCP port or unix socket):
+for EVERY script — any steps of the environment before the channel is built, any steps and calls
+after — what the model lets a caller observe satisfies every clause of the network oracle
+`Spec.Reconnect.netClauses`: each call gets a response from the server generation that is up (or
+still holds the connection), or an UNAVAILABLE error only while no server listens and no
+connection is left; the call after the server is back is served; and `Endpoint::connect()` with
+no server listening fails at once with UNAVAILABLE instead of handing out a channel. -/
+theorem C14_net_spec (isLazy : Bool) (pre post : List NOp) (hpre : ∀ op ∈ pre, op ≠ .call) :
+    (Spec.Reconnect.netClauses isLazy pre post (Net.run isLazy pre post)).all (·.2) = true :=
+  Net.run_holds isLazy pre post hpre
+
+/-- "an eagerly connected channel reports an initial failure immediately", for the standard entry
+point: whatever happened before, if no server listens when `Endpoint::connect()` is called the
+result is an UNAVAILABLE error and no channel (so no call can be issued on it). -/
+theorem C14_net_eager_initial_failure (pre post : List NOp)
+    (hdown : (pre.foldl Net.W.env { up := false, gen := 0, alive := none, aliveGen := 0 }).up = false) :
+    Net.run false pre post = { build := .error unavailable, evs := [] } := by
+  have hc := Net.world_connects (pre.foldl Net.W.env { up := false, gen := 0, alive := none, aliveGen := 0 })
+  rw [hdown] at hc
+  simp [Net.run, connectEager, E2E.answersFor, R.init, hc, drive, driveLoop, step, Net.refusedCode_eq]
 
 /-- The pinned tree (before the fix) does NOT satisfy the property: a lazy channel whose first
 attempt reaches a peer that is already gone (HTTP/2 handshake fails) hands the call an UNKNOWN
@@ -284,5 +454,53 @@ example : Spec.Reconnect.holds false [.accept, .refuse, .timeout, .deadPeer, .ac
     [.call, .die, .call, .call, .die, .call, .call]
     (E2E.run true false [.accept, .refuse, .timeout, .deadPeer, .accept]
       [.call, .die, .call, .call, .die, .call, .call]) = true := by decide
+
+-- the classification hypotheses are met by the chains the code really builds, with nasty causes
+example : ∀ n ∈ [ErrChain.Node.transport, .custom 3, .io .other], n.plain = true := by decide
+example : ErrClass.fromError [.transport, .connectError, .connectError, .io .notFound] = 14 := by decide
+example : ErrClass.fromError [.transport, .connectError, .custom 1, .status 5] = 14 := by decide
+example : ErrClass.fromError [.transport, .connectError, .timeoutExpired] = 14 := by decide
+-- and the model does tell classes apart where the code does
+example : ErrClass.fromError [.custom 1, .status 5] = 5 := by decide
+example : ErrClass.fromError [.transport, .hyper ⟨false, false⟩, .h2 (some 7)] = 14 := by decide
+example : ErrClass.fromError [.transport, .hyper ⟨false, false⟩, .io .brokenPipe] = 2 := by decide
+example : ErrClass.fromError [.h2 (some 8)] = 1 ∧ ErrClass.fromError [.custom 0, .h2 (some 8)] = 2 := by decide
+-- the oracle's class clause rejects NOT_FOUND for a connect error caused by io NotFound
+example : (Spec.Reconnect.classClauses [.transport, .connectError, .io .notFound] 5).all (·.2) = false := by decide
+
+-- a zero-deadline call on a lazy channel whose attempt fails takes the connect error itself …
+example : (serveD (R.init true) [.ok, .err 7, .ok, .ok, .ok] true).2.2 = .plain (.err 7) := by decide
+-- … so the next, ordinary call starts a fresh attempt and is served
+example : (sessionX (R.init true) [.ok, .err 7, .ok, .ok, .ok] [⟨true, .answered⟩, ⟨false, .answered⟩]).1
+    = [.plain (.err 7), .plain (.resp 2)] := by decide
+-- a call dies in flight, the next one (old connection reports closed, reconnect works) is served
+example : (sessionX (R.init true) [.ok, .ok, .ok, .err 0, .ok, .ok, .ok] [⟨false, .dies 5⟩, ⟨false, .answered⟩]).1
+    = [.lost 1 5, .plain (.resp 2)] := by decide
+-- end to end: zero deadline while the attempt fails, then the peer is back
+example : Spec.Reconnect.holds true [.refuse, .accept] [.callZero, .call]
+    (E2E.run true true [.refuse, .accept] [.callZero, .call]) = true := by decide
+-- the oracle rejects what a fail-fast deadline check in front of `Reconnect::call` would produce:
+-- the zero-deadline call reports its deadline although no connection exists, and the parked
+-- error goes to the next call without any new attempt
+example : Spec.Reconnect.holds true [.refuse, .accept] [.callZero, .call]
+    { build := .ok, buildAttempts := 0,
+      evs := [.call .expired 1, .call (.error 14 (some 1)) 1] } = false := by decide
+example : Spec.Reconnect.holds true [.accept, .accept] [.callDie, .call]
+    (E2E.run true true [.accept, .accept] [.callDie, .call]) = true := by decide
+
+-- a server that is started later, stopped, and started again, seen from a lazy channel
+example : Net.run true [] [.call, .up, .call, .down, .call, .up, .call] =
+    { build := .ok, evs := [.error 14, .resp 1, .error 14, .resp 2] } := by decide
+-- the network oracle rejects a channel handed out by an eager connect to a dead port
+example : (Spec.Reconnect.netClauses false [] [.call] { build := .ok, evs := [.error 14] }).all (·.2) = false := by
+  decide
+
+-- two callers at once on a lazy channel whose first attempt fails and whose second succeeds: the
+-- first gets the failure of the attempt it triggered, the second is served by its own attempt
+example : E2E.run true true [.refuse, .accept] [.pair] =
+    { build := .ok, buildAttempts := 0, evs := [.pair (.error 14 (some 1)) (.resp 2) 2] } := by decide
+-- the oracle rejects both callers being handed the same failure
+example : Spec.Reconnect.holds true [.refuse, .accept] [.pair]
+    { build := .ok, buildAttempts := 0, evs := [.pair (.error 14 (some 1)) (.error 14 (some 1)) 1] } = false := by decide
 
 end C14
